@@ -262,12 +262,12 @@ fn check_random_text(genome: &[u8], acc: &mut Acc) -> Vec<Failure> {
 
 fn ladder_depths(tier: Tier) -> Vec<usize> {
     match tier {
-        // 47..49 straddle the parser's nesting limit; chains are quadratic to compile, so the
+        // 31..33 straddle the parser's nesting limit; chains are quadratic to compile, so the
         // 16384 rung is left to the thorough tier
-        Tier::Quick => vec![1, 32, 47, 48, 49, 96, 512, 4096],
+        Tier::Quick => vec![1, 12, 31, 32, 33, 96, 512, 4096],
         Tier::Thorough => {
             let mut v: Vec<usize> = (0..15).map(|k| 1usize << k).collect();
-            v.extend([3, 31, 33, 47, 48, 49, 96, 200, 3000, 10000]);
+            v.extend([3, 12, 24, 31, 33, 47, 48, 49, 96, 200, 3000, 10000]);
             v.sort();
             v
         }
@@ -491,6 +491,36 @@ fn run(opts: &Opts, acc: &mut Acc) {
                 }
             }
         }
+        // the unoptimised build (what `cargo build` / `cargo test` produce by default): frames are
+        // several times larger, so the same ladders are a different test there
+        for c in LADDER_CONSTRUCTS {
+            for &d in &[1usize, 8, 12, 16, 24, 31, 32, 33, 512] {
+                for stack in ["main", "thread2m"] {
+                    specs.push((
+                        format!("ladder {} depth {} on {} (unoptimised)", c, d, stack),
+                        format!("ladder-opt0:{}", c),
+                        format!("c01:opt0-{}:ladder:{}", stack, c),
+                        ladder_spec(c, d, stack),
+                        "opt0",
+                        d >= 12,
+                    ));
+                }
+            }
+        }
+        for (name, spec) in cycle_specs() {
+            for stack in ["main", "thread2m"] {
+                let mut s = spec.clone();
+                s["stack"] = json!(stack);
+                specs.push((
+                    format!("cycle {} on {} (unoptimised)", name, stack),
+                    format!("cycle-opt0:{}", name),
+                    format!("c01:opt0-{}:cycle:{}", stack, name),
+                    s,
+                    "opt0",
+                    true,
+                ));
+            }
+        }
         for (name, spec) in cycle_specs() {
             for stack in ["main", "thread2m"] {
                 for profile in ["release", "dbg"] {
@@ -512,7 +542,7 @@ fn run(opts: &Opts, acc: &mut Acc) {
                 a.fail(f);
             }
         });
-        acc.mark_exhaustive("isolated", "30 ladder constructs x depth list x {8 MiB main stack, 2 MiB thread} x {release, dbg}; 27 cyclic reference shapes");
+        acc.mark_exhaustive("isolated", "40 ladder constructs x depth list x {8 MiB main stack, 2 MiB thread} x {release, dbg, unoptimised}; 27 cyclic reference shapes");
     }
 }
 
